@@ -175,11 +175,54 @@ def compound_slow_first_case(case):
     return dict(reproduced=bool(violated), violated=violated)
 
 
+def dynamic_range_case(case):
+    """C01: a dynamic Range (bounds named by other traits).  Independent oracle: whatever is readable after an assignment
+    lies inside the bounds with the declared exclusivity and has the type of the bounds; a rejection is a TraitError naming
+    the attribute and leaves the value as it was.  The model gives the exclusivity flags; the numeric inputs are a grid."""
+    from traits.api import HasTraits, Int, Float, Range, TraitError
+    exl, exh = bool(case.get("exclude_low")), bool(case.get("exclude_high"))
+    violated = []
+    for bound_trait, lo, hi, start, typ in ((Int, 0, 10, 5, int), (Int, -10, 0, -5, int), (Float, 0.0, 1.0, 0.5, float)):
+        class M(HasTraits):
+            low = bound_trait(lo)
+            high = bound_trait(hi)
+            start_ = bound_trait(start)
+            x = Range(low="low", high="high", value="start_", exclude_low=exl, exclude_high=exh)
+        grid = [lo, hi, lo - 1, hi + 1, lo + 0.5, hi - 0.5, lo - 0.5, hi + 0.5, lo + 0.999, hi - 0.999, lo - 0.25, hi + 0.25,
+                (lo + hi) / 2, float(lo), float(hi), True, None, "3", 1e300, -1e300, float("nan"), float("inf")]
+        for v in grid:
+            for how in ("setattr", "trait_set", "constructor"):
+                m = M()
+                before = m.x
+                try:
+                    if how == "setattr":
+                        m.x = v
+                    elif how == "trait_set":
+                        m.trait_set(x=v)
+                    else:
+                        m = M(x=v)
+                except TraitError as e:
+                    if "'x'" not in str(e) and " x " not in str(e):
+                        violated.append("%s x=%r: TraitError does not name the attribute: %s" % (how, v, e))
+                    if how != "constructor" and (m.x != before or type(m.x) is not type(before)):
+                        violated.append("%s x=%r rejected but the value changed %r -> %r" % (how, v, before, m.x))
+                    continue
+                except Exception as e:
+                    violated.append("%s x=%r raised %s instead of TraitError" % (how, v, type(e).__name__))
+                    continue
+                got = m.x
+                inside = (lo < got if exl else lo <= got) and (hi > got if exh else hi >= got)
+                if not inside or type(got) is not typ:
+                    violated.append("%s x=%r accepted for %r %s x %s %r: %r (%s) is now readable" % (
+                        how, v, lo, "<" if exl else "<=", "<" if exh else "<=", hi, got, type(got).__name__))
+    return dict(reproduced=bool(violated), violated=violated[:12], observed=dict(count=len(violated)))
+
+
 def main():
     case = json.loads(sys.stdin.read())
     out = {"float_range": float_range_case, "ctrait_state": ctrait_state_case,
            "setattr_name_refcount": setattr_name_refcount_case,
-           "compound_order": compound_order_case, "compound_slow_first": compound_slow_first_case}[case["family"]](case)
+           "compound_order": compound_order_case, "compound_slow_first": compound_slow_first_case, "dynamic_range": dynamic_range_case}[case["family"]](case)
     print(json.dumps(out, default=repr))
 
 
